@@ -84,6 +84,10 @@ func jobsFor(prop, tier string) []Job {
 				// array with >= 9 elements (a new element at index >= 7 has its parent at index >= 3)
 				dn := pick(10, 13)
 				add("heap", fmt.Sprintf("%s.%s.deep.n%d.p2", k, c, dn), 60, map[string]string{"c": k, "cmp": c}, map[string]int{"n": dn, "pmax": 2, "ids": 1, "jsonlen": 3})
+				// all elements tie and each has its own identity (dropped from the fingerprint): wide levels
+				// (>= 16 elements on one level need >= 31) — duplicated / lost elements among ties show
+				hn := pick(40, 70)
+				add("heapx", fmt.Sprintf("%s.%s.flatties.n%d", k, c, hn), 50, map[string]string{"c": k, "cmp": c}, map[string]int{"n": hn, "pmax": 1})
 				// three mutually tied, distinguishable elements on one level need >= 6 elements with 3 ids
 				add("heap", fmt.Sprintf("%s.%s.ties.n7", k, c), 40, map[string]string{"c": k, "cmp": c}, map[string]int{"n": 7, "pmax": 1, "ids": 3, "jsonlen": 3})
 				// large heaps, skewed: all elements of the greatest priority except at most two smaller ones
@@ -110,6 +114,8 @@ func jobsFor(prop, tier string) []Job {
 			add("iter", c, n, map[string]string{"c": c}, map[string]int{"n": pick(5, 7), "pmax": 2, "jsonlen": 0})
 			// three mutually tied distinguishable elements on one heap level: >= 6 elements, 3 ids
 			add("iter", c+".ties", n, map[string]string{"c": c}, map[string]int{"n": pick(7, 8), "pmax": 1, "ids": 3, "jsonlen": 0})
+			// all elements tie, each with its own identity: wide levels
+			add("iter", c+".flatties", n, map[string]string{"c": c}, map[string]int{"n": pick(36, 66), "deep": 1, "fullpred": 3})
 		}
 		for _, c := range []string{"rbt", "avl", "treemap"} {
 			add("iter", c, 20, map[string]string{"c": c}, map[string]int{"n": pick(8, 11), "rank": 1})
@@ -216,6 +222,21 @@ func jobsFor(prop, tier string) []Job {
 			}
 		}
 		add("ctorpanic", "documented-constructor-panics", 1, nil, nil)
+		// iterators over a container that is modified meanwhile: still total (no panic, no endless loop)
+		im := pick(3, 4)
+		for _, c := range []string{"arraylist", "singlylinkedlist", "doublylinkedlist", "arraystack", "linkedliststack", "arrayqueue", "linkedlistqueue", "binaryheap", "priorityqueue"} {
+			add("itermut", "itermut."+c, 5, map[string]string{"c": c}, map[string]int{"n": im, "u": 2, "pmax": 2, "jsonlen": 0})
+		}
+		add("itermut", "itermut.circularbuffer3", 5, map[string]string{"c": "circularbuffer"}, map[string]int{"cap": 3, "u": 2})
+		for _, c := range []string{"linkedhashset", "linkedhashmap", "treeset", "treemap", "treebidimap"} {
+			add("itermut", "itermut."+c, 5, map[string]string{"c": c}, map[string]int{"u": im})
+		}
+		for _, c := range []string{"rbt", "avl"} {
+			add("itermut", "itermut."+c, 5, map[string]string{"c": c}, map[string]int{"n": pick(6, 8), "rank": 1})
+		}
+		for _, m := range []int{3, 4} {
+			add("itermut", fmt.Sprintf("itermut.btree%d", m), 8, map[string]string{"c": "btree"}, map[string]int{"m": m, "n": pick(8, 11), "rank": 1})
+		}
 	case "C18":
 		for _, jb := range allContainerJobs(q) {
 			// pass 1 + 3 (plain binary)
@@ -263,10 +284,16 @@ func jobsFor(prop, tier string) []Job {
 		}
 		// the C15 invariants are part of every box's state oracle: the family searches of the
 		// other properties (with their own, larger bounds) are re-run with the C15 oracle
-		for _, p := range []string{"C01", "C03", "C04", "C05", "C06"} {
+		for _, p := range []string{"C01", "C03", "C04", "C05", "C06", "C12"} {
 			for _, sj := range jobsFor(p, tier) {
 				sj.ID = "C15.via" + sj.ID
 				sj.Prop = "C15"
+				if sj.Kind == "json12" { // states reachable only through FromJSON (trimmed: small prior states)
+					sj.P["prior"], sj.P["depth"] = 1, 1
+					if !q {
+						sj.P["prior"], sj.P["depth"] = 2, 1
+					}
+				}
 				jobs = append(jobs, sj)
 			}
 		}
@@ -353,6 +380,15 @@ func allContainerJobs(q bool) []cjob {
 	js = append(js, cjob{"treemap", 2, map[string]string{"c": "treemap"}, map[string]int{"u": n + 1}})
 	js = append(js, cjob{"hashbidimap", 1, map[string]string{"c": "hashbidimap"}, map[string]int{"u": pick(3, 4)}})
 	js = append(js, cjob{"treebidimap", 2, map[string]string{"c": "treebidimap"}, map[string]int{"u": pick(3, 4)}})
+	for i := range js {
+		switch js[i].s["c"] {
+		case "arraylist", "singlylinkedlist", "doublylinkedlist", "arraystack", "linkedliststack", "arrayqueue", "linkedlistqueue", "circularbuffer",
+			"hashmap", "linkedhashmap", "treemap", "hashbidimap", "treebidimap":
+			if js[i].p["deep"] != 1 && js[i].s["elem"] == "" {
+				js[i].p["jsonops"] = 1 // FromJSON of a few texts (null entries, repeated values) as operations
+			}
+		}
+	}
 	tn := pick(7, 10)
 	js = append(js, cjob{"rbt", 5, map[string]string{"c": "rbt"}, map[string]int{"n": tn, "rank": 1}})
 	js = append(js, cjob{"avl", 5, map[string]string{"c": "avl"}, map[string]int{"n": tn, "rank": 1}})
@@ -437,7 +473,13 @@ func bidiJobs(prop string, q bool, add func(kind, id string, w int, s map[string
 		u = 4
 	}
 	add("kv", fmt.Sprintf("treebidimap.New.u%d", u), u, map[string]string{"c": "treebidimap", "ctor": "default"}, map[string]int{"u": u})
-	add("kv", fmt.Sprintf("hashbidimap.u%d", u), u, map[string]string{"c": "hashbidimap"}, map[string]int{"u": u})
+	// history families at a size where the underlying trees go through every deletion case
+	fu := 16
+	if !q {
+		fu = 28
+	}
+	add("kvfamily", fmt.Sprintf("treebidimap.family.u%d", fu), fu*fu, map[string]string{"c": "treebidimap"}, map[string]int{"u": fu})
+	add("kvfamily", fmt.Sprintf("hashbidimap.family.u%d", fu), fu, map[string]string{"c": "hashbidimap"}, map[string]int{"u": fu})
 	for _, kc := range []string{"nat", "rev", "coarse"} {
 		for _, vc := range []string{"nat", "rev", "coarse"} {
 			uu := u
@@ -534,6 +576,15 @@ func init() {
 					st.Nested["each_orders_checked"]++
 				}
 				return nil
+			}
+		})
+	}
+	jobKinds["heapx"] = func(j Job, r *JobResult) {
+		s := hxSys(j.s("c", ""), j.s("cmp", "min"), j.p("n", 40), j.p("pmax", 1), j.p("skew", 0))
+		exploreJob(j, r, s, func(e *Explorer) {
+			e.OnState = func(path []Op, build func() Inst, st *Stats) *Viol {
+				st.Nested["drains"]++
+				return build().(*heapBox[HX]).drain()
 			}
 		})
 	}
